@@ -299,7 +299,8 @@ Argument:
         return self.execute_experiment(runs, use_nice, use_shielding)
 
     def execute_experiment(self, runs, use_nice, use_shielding):
-        self.ui.verbose_output_info("Execute experiment: " + self._config.experiment_name + "\n")
+        self.ui.verbose_output_info(
+            "Execute experiment: " + escape_braces(self._config.experiment_name) + "\n")
 
         scheduler_class = {'batch':       BatchScheduler,
                            'round-robin': RoundRobinScheduler,
@@ -349,7 +350,7 @@ def main_func():
     except BenchmarkThreadExceptions as exceptions:
         ui = UI()
         for ex in exceptions.exceptions:
-            ui.error(str(ex) + "\n")
+            ui.error(escape_braces(str(ex)) + "\n")
         return EXIT_CODE_EXCEPTION
 
 
